@@ -68,9 +68,10 @@ func MakeKeySet(si, pi, pat int) KeySet {
 	s := ref.Suites()[si]
 	p := ref.PRFs[pi]
 	ks := KeySet{Suite: s, SuiteIdx: si, PRFIdx: pi, Pattern: pat}
+	o := 31 * (si + 9*pi) // patterns >= 2 are unrelated between suites (all-zero / all-0xFF cannot be)
 	ks.K = ref.IKEKeys{
-		SKd: keyBytes(p.KeyLen, pat, 1), SKai: keyBytes(s.Integ.KeyLen, pat, 2), SKar: keyBytes(s.Integ.KeyLen, pat, 3),
-		SKei: keyBytes(s.EncrKeyLen, pat, 4), SKer: keyBytes(s.EncrKeyLen, pat, 5), SKpi: keyBytes(p.KeyLen, pat, 6), SKpr: keyBytes(p.KeyLen, pat, 7),
+		SKd: keyBytes(p.KeyLen, pat, 1+o), SKai: keyBytes(s.Integ.KeyLen, pat, 2+o), SKar: keyBytes(s.Integ.KeyLen, pat, 3+o),
+		SKei: keyBytes(s.EncrKeyLen, pat, 4+o), SKer: keyBytes(s.EncrKeyLen, pat, 5+o), SKpi: keyBytes(p.KeyLen, pat, 6+o), SKpr: keyBytes(p.KeyLen, pat, 7+o),
 	}
 	return ks
 }
